@@ -266,7 +266,7 @@ var targetSfx = []string{"", "", "", "?x=1", "/p/q", "?a=b&c=d", "#f", "/%41", "
 var otherFields = []string{
 	"X-A: b", "Accept: */*", "User-Agent: u/1", "Cookie: k=v", "X-Long: " + strings.Repeat("z", 50),
 	"Content-Type: text/plain", "Connection: keep-alive", "Connection: Keep-Alive, x", "X-B: c", "Accept-Encoding: gzip", "X-C: d,e",
-	"Content-Encoding: gzip", "content-encoding: gzip", "Trailer: X-T", "X-Empty:", "Accept:\t a ",
+	"Content-Encoding: gzip", "content-encoding: gzip", "Trailer: X-T", "X-Empty:", "Accept:\t a ", "Expect: 100-continue", "connection: keep-alive",
 }
 
 // framing field lines of the exhaustive matrix: %N = the length of the body that is sent
@@ -500,6 +500,13 @@ func (g *gen) request(id int, odd bool) []byte {
 	b.WriteString(method + sep1 + target + sep2 + version + lt(false))
 
 	host := "Host: h"
+	if r.Intn(6) == 0 {
+		host = hlib.Pick(r, []string{"Host: h:80", "Host: [::1]:8080", "Host: H.Example", "Host:\th ", "Host: u@h"})
+	}
+	if odd && r.Intn(6) == 0 {
+		host = hlib.Pick(r, []string{"Host: h:x", "Host: [::1", "Host: a b", "Host: h:80:81", "Host: %zz", "Host: ", "Host: [::g]"})
+		g.tag("badhost")
+	}
 	switch r.Intn(20) {
 	case 0:
 		if odd {
